@@ -609,4 +609,254 @@ theorem ofInt_exact (i : Int) (hi : i.natAbs < 2 ^ 53) :
   apply hex i.natAbs 0 hi (by norm_num)
   rw [← habs]; simp
 
+/-! ### E. interface over values -/
+
+/-- `x` is a finite datum with exact value `q` -/
+def IsFin (x : Nat) (q : ℚ) : Prop := ∃ s m e, decode x = .fin s m e ∧ Fl.toQ (.fin s m e) = q
+
+def eta : ℚ := (2 : ℚ) ^ (-1075 : Int)
+
+/-- `q` is what one rounding makes of the exact value `z` -/
+def Near (q z : ℚ) : Prop :=
+  |q - z| ≤ |z| / 2 ^ 53 + eta ∧
+    (∀ (M : Nat) (E : Int), M < 2 ^ 53 → -1074 ≤ E → |z| = (M : ℚ) * (2 : ℚ) ^ E → q = z)
+
+theorem approx_iff (r : Nat) (z : ℚ) (h : Approx r z) : ∃ q, IsFin r q ∧ Near q z := by
+  obtain ⟨s, m, q, hd, he, hx⟩ := h
+  exact ⟨_, ⟨s, m, q, hd, rfl⟩, he, hx⟩
+
+theorem abs_toQ (s : Bool) (m : Nat) (e : Int) : |Fl.toQ (.fin s m e)| = (m : ℚ) * (2 : ℚ) ^ e := by
+  rw [toQ_fin, abs_mul, abs_mul, abs_sgn, one_mul]
+  rw [abs_of_nonneg (by positivity : (0 : ℚ) ≤ (m : ℚ)), abs_of_pos (by positivity)]
+
+theorem div_fin (x y : Nat) (qx qy : ℚ) (hx : IsFin x qx) (hy : IsFin y qy) (hy0 : qy ≠ 0)
+    (hz : |qx / qy| < (2 : ℚ) ^ (1023 : Int)) : ∃ q, IsFin (div x y) q ∧ Near q (qx / qy) := by
+  obtain ⟨s, m, e, hdx, rfl⟩ := hx
+  obtain ⟨s', m', e', hdy, rfl⟩ := hy
+  have hm' : m' ≠ 0 := by
+    intro h; apply hy0; rw [toQ_fin, h]; simp
+  apply approx_iff
+  apply div_spec x y s s' m m' e e' hdx hdy hm'
+  rw [abs_div, abs_toQ, abs_toQ] at hz
+  exact hz
+
+theorem mul_fin (x y : Nat) (qx qy : ℚ) (hx : IsFin x qx) (hy : IsFin y qy)
+    (hz : |qx * qy| < (2 : ℚ) ^ (1023 : Int)) : ∃ q, IsFin (mul x y) q ∧ Near q (qx * qy) := by
+  obtain ⟨s, m, e, hdx, rfl⟩ := hx
+  obtain ⟨s', m', e', hdy, rfl⟩ := hy
+  apply approx_iff
+  apply mul_spec x y s s' m m' e e' hdx hdy
+  rw [abs_mul, abs_toQ, abs_toQ] at hz
+  exact hz
+
+theorem add_fin (x y : Nat) (qx qy : ℚ) (hx : IsFin x qx) (hy : IsFin y qy)
+    (hz : |qx + qy| < (2 : ℚ) ^ (1023 : Int)) : ∃ q, IsFin (add x y) q ∧ Near q (qx + qy) := by
+  obtain ⟨s, m, e, hdx, rfl⟩ := hx
+  obtain ⟨s', m', e', hdy, rfl⟩ := hy
+  exact approx_iff _ _ (add_spec x y s s' m m' e e' hdx hdy hz)
+
+theorem sub_fin (x y : Nat) (hy64 : y < 2 ^ 64) (qx qy : ℚ) (hx : IsFin x qx) (hy : IsFin y qy)
+    (hz : |qx - qy| < (2 : ℚ) ^ (1023 : Int)) : ∃ q, IsFin (sub x y) q ∧ Near q (qx - qy) := by
+  obtain ⟨s, m, e, hdx, rfl⟩ := hx
+  obtain ⟨s', m', e', hdy, rfl⟩ := hy
+  exact approx_iff _ _ (sub_spec x y hy64 s s' m m' e e' hdx hdy hz)
+
+theorem ofInt_fin (i : Int) (hi : i.natAbs < 2 ^ 53) : IsFin (ofInt i) (i : ℚ) := by
+  obtain ⟨s, m, q, hd, hv⟩ := ofInt_exact i hi
+  exact ⟨s, m, q, hd, hv⟩
+
+/-! ### F. integer-valued data: truncation, `math.Round`, conversion -/
+
+theorem truncInt_of_int (s : Bool) (m : Nat) (e : Int) (i : Int)
+    (h : Fl.toQ (.fin s m e) = (i : ℚ)) : truncInt s m e = i := by
+  have h2 : (2 : ℚ) ≠ 0 := by norm_num
+  rw [toQ_fin] at h
+  unfold truncInt
+  by_cases he : e ≥ 0
+  · obtain ⟨k, hk⟩ : ∃ k : Nat, (k : Int) = e := ⟨e.toNat, by omega⟩
+    have hkn : e.toNat = k := by omega
+    simp only [he, if_true, hkn]
+    rw [← hk, zpow_natCast] at h
+    cases s with
+    | false =>
+      simp only [sgn, Bool.false_eq_true, if_false, one_mul] at h ⊢
+      have : ((m * 2 ^ k : Nat) : ℚ) = (i : ℚ) := by push_cast; exact h
+      exact_mod_cast this
+    | true =>
+      simp only [sgn, if_true] at h ⊢
+      have : (-((m * 2 ^ k : Nat) : Int) : ℚ) = (i : ℚ) := by push_cast; linarith
+      exact_mod_cast this
+  · obtain ⟨k, hk⟩ : ∃ k : Nat, (k : Int) = -e := ⟨(-e).toNat, by omega⟩
+    have hkn : (-e).toNat = k := by omega
+    simp only [he, if_false, hkn]
+    have he' : e = -(k : Int) := by omega
+    rw [he', zpow_neg, zpow_natCast] at h
+    have hp : ((2 : ℚ) ^ k) ≠ 0 := by positivity
+    cases s with
+    | false =>
+      simp only [sgn, Bool.false_eq_true, if_false, one_mul] at h ⊢
+      have hm : ((m : Int) : ℚ) = ((i * 2 ^ k : Int) : ℚ) := by
+        push_cast; field_simp at h; linarith
+      have hm' : (m : Int) = i * 2 ^ k := by exact_mod_cast hm
+      have : ((m / 2 ^ k : Nat) : Int) = i := by
+        rw [Int.natCast_div, hm']; push_cast
+        exact Int.mul_ediv_cancel _ (by positivity)
+      exact this
+    | true =>
+      simp only [sgn, if_true] at h ⊢
+      have hm : ((m : Int) : ℚ) = ((-i * 2 ^ k : Int) : ℚ) := by
+        push_cast; field_simp at h; linarith
+      have hm' : (m : Int) = -i * 2 ^ k := by exact_mod_cast hm
+      have : ((m / 2 ^ k : Nat) : Int) = -i := by
+        rw [Int.natCast_div, hm']; push_cast
+        exact Int.mul_ediv_cancel _ (by positivity)
+      omega
+
+theorem cvtt_int (w : Nat) (y : Nat) (r : Int) (hy : IsFin y (r : ℚ))
+    (hr : -(2 ^ (w - 1) : Int) ≤ r ∧ r < 2 ^ (w - 1)) : cvtt w y = wrap w r := by
+  obtain ⟨s, m, e, hd, hv⟩ := hy
+  have := truncInt_of_int s m e r hv
+  simp only [cvtt, hd, this, hr, and_self, if_true]
+
+/-- the types of at most 32 bits: `r` lies in the range of the type -/
+def InRange (ty : IntTy) (r : Int) : Prop :=
+  if ty.signed then -(2 ^ (ty.bits - 1) : Int) ≤ r ∧ r < 2 ^ (ty.bits - 1) else 0 ≤ r ∧ r < 2 ^ ty.bits
+
+theorem wrap_mod (w b : Nat) (hb : b ≤ w) (r : Int) : wrap w r % 2 ^ b = wrap b r := by
+  unfold wrap
+  have hd : ((2 : Int) ^ b) ∣ (2 : Int) ^ w := pow_dvd_pow 2 hb
+  have h1 : (0 : Int) ≤ r % 2 ^ w := Int.emod_nonneg _ (by positivity)
+  have h2 : (0 : Int) ≤ r % 2 ^ b := Int.emod_nonneg _ (by positivity)
+  apply Int.ofNat.inj
+  simp only [Int.ofNat_eq_natCast]
+  push_cast
+  rw [Int.toNat_of_nonneg h1, Int.toNat_of_nonneg h2]
+  exact Int.emod_emod_of_dvd r hd
+
+theorem cvt_int (ty : IntTy) (hty : ty.bits ≤ 32) (y : Nat) (r : Int) (hy : IsFin y (r : ℚ))
+    (hr : InRange ty r) : cvt ty y = wrap ty.bits r := by
+  cases ty <;> simp only [IntTy.bits, IntTy.signed, InRange, if_true, Bool.false_eq_true, if_false] at hty hr ⊢
+  all_goals first
+    | (simp only [cvt, IntTy.bits]
+       rw [cvtt_int 32 y r hy (by constructor <;> norm_num <;> omega)]
+       exact wrap_mod 32 _ (by norm_num) r)
+    | (simp only [cvt, IntTy.bits]
+       rw [cvtt_int 64 y r hy (by constructor <;> norm_num <;> omega)]
+       exact wrap_mod 64 _ (by norm_num) r)
+    | omega
+
+/-- `math.Round` of a value within 1/2 of the integer `r` is `r` -/
+theorem round_fin (x : Nat) (q : ℚ) (r : Int) (hx : IsFin x q) (hq : |q - r| < 1 / 2) (hr : r.natAbs < 2 ^ 53) :
+    IsFin (round x) (r : ℚ) := by
+  have h2 : (2 : ℚ) ≠ 0 := by norm_num
+  obtain ⟨s, m, e, hd, hv⟩ := hx
+  rw [toQ_fin] at hv
+  by_cases he : e ≥ 0
+  · -- already an integer
+    simp only [round, hd, he, if_true]
+    refine ⟨s, m, e, hd, ?_⟩
+    obtain ⟨k, hk⟩ : ∃ k : Nat, (k : Int) = e := ⟨e.toNat, by omega⟩
+    rw [toQ_fin]
+    rw [← hk, zpow_natCast] at hv ⊢
+    -- q is the integer j
+    obtain ⟨j, hj⟩ : ∃ j : Int, (j : ℚ) = q := by
+      refine ⟨(if s then -1 else 1) * (m : Int) * 2 ^ k, ?_⟩
+      rw [← hv]; cases s <;> simp [sgn]
+    rw [hv]
+    rw [← hj] at hq ⊢
+    have : |((j - r : Int) : ℚ)| < 1 / 2 := by push_cast; exact hq
+    rw [← Int.cast_abs] at this
+    have hlt : |j - r| < 1 := by
+      have : ((|j - r| : Int) : ℚ) < 1 := by linarith
+      exact_mod_cast this
+    have : j = r := by
+      have := abs_lt.mp hlt; omega
+    rw [this]
+  · obtain ⟨k, hk⟩ : ∃ k : Nat, (k : Int) = -e := ⟨(-e).toNat, by omega⟩
+    have hkn : (-e).toNat = k := by omega
+    have hk1 : 1 ≤ k := by omega
+    simp only [round, hd, he, if_false, hkn]
+    have he' : e = -(k : Int) := by omega
+    rw [he', zpow_neg, zpow_natCast] at hv
+    have hp : (0 : ℚ) < (2 : ℚ) ^ k := by positivity
+    set a := r.natAbs with ha
+    -- |m/2^k − a| < 1/2 and the sign agrees with r unless r = 0
+    have haq : (a : ℚ) = |(r : ℚ)| := by rw [ha, Nat.cast_natAbs, Int.cast_abs]
+    have hmag : |(m : ℚ) * ((2 : ℚ) ^ k)⁻¹ - a| < 1 / 2 ∧ (r ≠ 0 → s = decide (r < 0)) := by
+      have hmn : (0 : ℚ) ≤ (m : ℚ) * ((2 : ℚ) ^ k)⁻¹ := by positivity
+      rcases lt_trichotomy r 0 with hneg | hz | hpos
+      · have hrq : (r : ℚ) ≤ -1 := by exact_mod_cast (by omega : r ≤ -1)
+        have : (a : ℚ) = -(r : ℚ) := by rw [haq, abs_of_neg (by linarith)]
+        cases s with
+        | false =>
+          simp only [sgn, Bool.false_eq_true, if_false, one_mul] at hv
+          rw [← hv] at hq; have := abs_lt.mp hq; linarith
+        | true =>
+          simp only [sgn, if_true] at hv
+          refine ⟨?_, fun _ => by simp [hneg]⟩
+          rw [this]
+          have e : (m : ℚ) * ((2 : ℚ) ^ k)⁻¹ - -(r : ℚ) = -(q - r) := by rw [← hv]; ring
+          rw [e, abs_neg]; exact hq
+      · subst hz
+        have ha0 : a = 0 := by simp [ha]
+        refine ⟨?_, fun h => absurd rfl h⟩
+        rw [ha0]; simp only [Nat.cast_zero, sub_zero, Int.cast_zero] at hq ⊢
+        rw [← hv, abs_mul, abs_mul, abs_sgn, one_mul] at hq
+        rw [abs_of_nonneg hmn]
+        rwa [abs_of_nonneg (by positivity), abs_of_pos (by positivity)] at hq
+      · have hrq : (1 : ℚ) ≤ (r : ℚ) := by exact_mod_cast (by omega : 1 ≤ r)
+        have : (a : ℚ) = (r : ℚ) := by rw [haq, abs_of_pos (by linarith)]
+        cases s with
+        | true =>
+          simp only [sgn, if_true] at hv
+          rw [← hv] at hq; have := abs_lt.mp hq; nlinarith
+        | false =>
+          simp only [sgn, Bool.false_eq_true, if_false, one_mul] at hv
+          refine ⟨?_, fun _ => by simp [not_lt.mpr hpos.le]⟩
+          rw [this, hv]; exact hq
+    obtain ⟨hmag, hsign⟩ := hmag
+    -- the rounded magnitude is a
+    have hn : (m + 2 ^ (k - 1)) / 2 ^ k = a := by
+      have hlt := abs_lt.mp hmag
+      have hpk : (2 : ℚ) ^ k = 2 * 2 ^ (k - 1) := by
+        rw [← pow_succ']; congr 1; omega
+      have hpk' : 2 ^ k = 2 * 2 ^ (k - 1) := by
+        rw [← pow_succ']; congr 1; omega
+      have h1 : (a : ℚ) * 2 ^ k < (m : ℚ) + 2 ^ (k - 1) := by
+        have := hlt.1
+        have : (a : ℚ) - 1 / 2 < (m : ℚ) * ((2 : ℚ) ^ k)⁻¹ := by linarith
+        rw [← div_eq_mul_inv, lt_div_iff₀ hp] at this
+        rw [hpk] at this ⊢; nlinarith
+      have h2' : (m : ℚ) + 2 ^ (k - 1) < ((a : ℚ) + 1) * 2 ^ k := by
+        have : (m : ℚ) * ((2 : ℚ) ^ k)⁻¹ < (a : ℚ) + 1 / 2 := by linarith [hlt.2]
+        rw [← div_eq_mul_inv, div_lt_iff₀ hp] at this
+        rw [hpk] at this ⊢; nlinarith
+      have h1n : a * 2 ^ k < m + 2 ^ (k - 1) := by exact_mod_cast h1
+      have h2n : m + 2 ^ (k - 1) < (a + 1) * 2 ^ k := by exact_mod_cast h2'
+      exact Nat.div_eq_of_lt_le (le_of_lt h1n) h2n
+    rw [hn]
+    -- ofRat s a 1 0 has value r
+    have key := ofRat_spec s a 1 0 (by norm_num) (by
+      have : ((a : Nat) : ℚ) < 2 ^ 53 := by exact_mod_cast hr
+      have h : (2 : ℚ) ^ 53 < (2 : ℚ) ^ (1023 : Int) := by
+        rw [← zpow_natCast]; exact zpow_lt_zpow_right₀ (by norm_num) (by norm_num)
+      have e : ((a : Nat) : ℚ) / ((1 : Nat) : ℚ) * (2 : ℚ) ^ (0 : Int) = (a : ℚ) := by simp
+      rw [e]; exact lt_trans this h)
+    have e1 : (if s = true then (-1 : ℚ) else 1) * ((a : ℚ) / (1 : Nat) * (2 : ℚ) ^ (0 : Int)) = (r : ℚ) := by
+      by_cases hr0 : r = 0
+      · have : a = 0 := by simp [ha, hr0]
+        rw [this, hr0]; simp
+      · have hs := hsign hr0
+        rw [haq, hs]
+        by_cases hneg : r < 0
+        · have : (r : ℚ) < 0 := by exact_mod_cast hneg
+          simp [hneg, abs_of_neg this]
+        · have : (0 : ℚ) ≤ (r : ℚ) := by exact_mod_cast (not_lt.mp hneg)
+          simp [hneg, abs_of_nonneg this]
+    rw [e1] at key
+    obtain ⟨s', m', q', hdec, _, hex⟩ := key
+    refine ⟨s', m', q', hdec, ?_⟩
+    apply hex a 0 hr (by norm_num)
+    rw [haq]; simp
+
 end Fit.F64
